@@ -210,12 +210,21 @@ def cfg_name(cfg):
     return "%s,dim=%d,deia=%d,%s" % ("gzip" if gz else "plain", dim, deia, "warm" if warm else "cold")
 
 
+def warm_up(cfg, url, rows, home, scratch):
+    """pre-existing cache entry, produced by a separate, untraced child so that no kill point can fall into it"""
+    gz, dim, deia, warm = cfg
+    if not warm:
+        return
+    rc, out, err = _ds.run_child({"home": home, "steps": [
+        {"op": "net", "default": "good"},
+        {"op": "remote", "url": url, "dataset_filename": "entry", "folder": "fold", "gz": gz, "rows": rows}]}, scratch)
+    if out is None or out["results"][1].get("outcome") != "ok":
+        raise RuntimeError("warm-up load failed: rc=%s %s" % (rc, err))
+
+
 def kill_steps(cfg, url, rows):
     gz, dim, deia, warm = cfg
     pre = []
-    if warm:
-        pre = [{"op": "net", "default": "good"},
-               {"op": "remote", "url": url, "dataset_filename": "entry", "folder": "fold", "gz": gz, "rows": rows}]
     target = {"op": "remote", "url": url, "dataset_filename": "entry", "folder": "fold", "gz": gz, "rows": rows,
               "flags": {"download_if_missing": bool(dim), "download_even_if_available": bool(deia)},
               "n_retries": 1, "delay": 0.1}
@@ -242,6 +251,7 @@ def syscall_counts(cfg, url, rows, scratch, home_root):
     home = os.path.join(home_root, "dry")
     os.makedirs(home, exist_ok=True)
     steps, _ti = kill_steps(cfg, url, rows)
+    warm_up(cfg, url, rows, home, scratch)
     log = os.path.join(scratch, "strace-dry.log")
     prefix = ["strace", "-f", "-qq", "-o", log, "-e", "trace=" + ",".join(STRACE_CALLS)]
     rc, out, err = _ds.run_child({"home": home, "steps": steps}, scratch, prefix=prefix)
@@ -278,6 +288,7 @@ def run_kill(ctx, spec):
         else:
             home = os.path.join(scratch, "dry")
             os.mkdir(home)
+            warm_up(cfg, url, rows, home, scratch)
             rc, out, err = _ds.run_child({"home": home, "steps": steps, "kill": {"events": mode, "at": None, "step": ti}},
                                          scratch)
             if out is None:
@@ -290,6 +301,7 @@ def run_kill(ctx, spec):
             home = os.path.join(scratch, "h-%s-%d" % (what, k))
             os.mkdir(home)
             cid = {"kind": "kill", "cfg": list(cfg), "mode": mode, "what": what, "at": k, "seed": ctx.seed}
+            warm_up(cfg, url, rows, home, scratch)
             if mode == "syscall":
                 prefix = ["strace", "-f", "-qq", "-o", "/dev/null", "-e", "trace=" + what,
                           "-e", "inject=%s:signal=KILL:when=%d" % (what, k)]
@@ -646,6 +658,7 @@ def replay(ctx, case):
             steps, ti = kill_steps(cfg, url, 400)
             home = os.path.join(scratch, "h")
             os.mkdir(home)
+            warm_up(cfg, url, 400, home, scratch)
             if case["mode"] == "syscall":
                 prefix = ["strace", "-f", "-qq", "-o", "/dev/null", "-e", "trace=" + case["what"],
                           "-e", "inject=%s:signal=KILL:when=%d" % (case["what"], case["at"])]
